@@ -229,8 +229,11 @@ def replay_behaviour(col, w, b, hdr, rng, pid):
             break
         if hdr['nd'][sid - 1] >= run['nmin']:
             line_of.append(i)
-    got = [(r.source.name, int(r.n_fits), r.model_fluxes is not None) for r in recs]
-    want = [(w.src_name(e['sid'], line_of[k]) if k < len(line_of) else '?', e['n'], e['pred']) for k, e in enumerate(exp_file)]
+    # a source whose regression is singular (outside C01) has UNSPECIFIED fits: the spec models what the code does today (all NaN),
+    # C10 only demands that the file agrees with the object interface -- so the number of fits kept is not compared for it here
+    sing = hdr.get('sing', [False] * len(hdr['pool']))
+    got = [(r.source.name, '*' if sing[sid_of(r.source.name) - 1] else int(r.n_fits), r.model_fluxes is not None) for r in recs]
+    want = [(w.src_name(e['sid'], line_of[k]) if k < len(line_of) else '?', '*' if sing[e['sid'] - 1] else e['n'], e['pred']) for k, e in enumerate(exp_file)]
     if got != want:
         col.violation('%s:file_records' % pid, 'fit output holds %r, spec expects %r (lines %r, n_data_min %d, selector %r, convolved %r)'
                       % (got, want, run['lines'], run['nmin'], conc_sel(run['sel'], unit), run['conv']), dict(ctx_desc, observed=got))
@@ -291,6 +294,9 @@ def replay_behaviour(col, w, b, hdr, rng, pid):
                         bad = 'source order: %s where spec has pool source %d' % (r_['name'], e_['sid'])
                     elif r_['nd'] is not None and r_['nd'] != e_['nd']:
                         bad = '%s: n_data %d, spec %d' % (r_['name'], r_['nd'], e_['nd'])
+                    elif sing[e_['sid'] - 1]:
+                        if r_['rows'] != r_['n']:
+                            bad = '%s: n_fits %d but %d rows listed' % (r_['name'], r_['n'], r_['rows'])
                     elif not (e_['lo'] <= r_['n'] <= e_['hi']) or r_['rows'] != r_['n']:
                         bad = '%s: n_fits %d (rows listed %d), spec admits %d..%d' % (r_['name'], r_['n'], r_['rows'], e_['lo'], e_['hi'])
                     if bad:
@@ -302,6 +308,8 @@ def replay_behaviour(col, w, b, hdr, rng, pid):
                               dict(ctx_desc, step=step_no, observed=res))
                 return
         elif st['act'] == 'Split':
+            if any(int(r_.n_fits) == 0 for r_ in recs):
+                continue          # a record without fits has no best chi^2: outside C18 (the spec only splits inputs whose records have fits)
             thr = conc_thr(st['thr'], unit)
             # output names: both automatic (<input>_good / <input>_bad, file input only), both explicit, or one of each
             naming = rng.choice(['auto', 'explicit', 'good_explicit', 'bad_explicit']) if form == 'path' else 'explicit'
@@ -329,7 +337,7 @@ def replay_behaviour(col, w, b, hdr, rng, pid):
                               dict(ctx_desc, step=step_no))
                 return
             col.replayed += 1
-            bad = check_split(g, bd, recs, st['verdict'])
+            bad = check_split(g, bd, recs, ['?' if sing[sid_of(r_.source.name) - 1] else v_ for r_, v_ in zip(recs, st['verdict'])])
             if bad:
                 col.violation('%s:split' % pid, 'filter_output(%s=%r, %s input): %s' % (st['crit'], thr, form, bad), dict(ctx_desc, step=step_no))
                 return
